@@ -11,9 +11,29 @@ def _short(e, n=300):
     return json.dumps(ev)[:n]
 
 
+def _apalache_poswalk(chk):
+    """optional extra: the position walk for an arbitrary deck size, inductive invariant + forward progress, with Apalache"""
+    import shutil as _sh
+    if not _sh.which("apalache-mc"):
+        chk.note("Apalache not available: unbounded position-walk argument skipped")
+        return
+    outdir = chk.path("apalache")
+    runs = [("Init", "IndInv", 0), ("IndInit", "IndInv", 1), ("IndInit", "Forward", 1)]
+    t = time.time()
+    for init, inv, length in runs:
+        rc, out = run(["apalache-mc", "check", "--out-dir=" + outdir, "--cinit=ConstInit", "--init=" + init, "--inv=" + inv, "--length=%d" % length, "PosWalk.tla"],
+                      cwd=os.path.join(SPEC, "apalache"), timeout=900)
+        if "EXITCODE: OK" not in out:
+            raise ToolError("Apalache: %s / %s not established for spec/apalache/PosWalk.tla\n%s" % (init, inv, out[-1500:]))
+    chk.parts["apalache_poswalk"] = {"obligations": len(runs), "wall_s": round(time.time() - t, 1)}
+    chk.note("Apalache: position walk for every deck size 3..60: IndInv initial and inductive, every step strictly forwards (%.0fs)" % (time.time() - t))
+
+
 def c04(chk, opts):
     thorough = chk.tier == "thorough"
     build("release")
+    if thorough:
+        _apalache_poswalk(chk)
     r = tlc("MCScopes", timeout=900, heap="6g")
     chk.add_tlc(r, "MCScopes(tiling theorem, D=4)")
     r = tlc("MCFlop", cfg="MCFlopScopes.cfg", timeout=3600, heap="12g")
